@@ -125,6 +125,13 @@ pub fn pool() -> Vec<Lab> {
         Lab::Str("FOO".into()),
         Lab::Alpha(1 << 32),
         Lab::Alpha((1 << 32) + 1),
+        // families with a long common prefix (more than 16 bytes of UTF-8 for the wide ones)
+        // that differ in the last character only
+        Lab::Str("数据节点甲一".into()),
+        Lab::Str("数据节点甲二".into()),
+        Lab::Str("abcdefgX".into()),
+        Lab::Str("абвгдежи".into()),
+        Lab::Str("𝜑𝜓𝜔𝛼𝛽𝛾𝛿𝜁".into()),
     ];
     // enough distinct labels to fill a vertex with N = 16 and go one beyond
     for i in 0..10 {
